@@ -6,7 +6,7 @@
    signature term under honest material occurring in l is one of those (Dolev-Yao).  The key tag is
    a free field of every key, so each statement holds for every tag assignment (collisions
    included); [nrank] (Go's string order) and the record order are universally quantified. *)
-From Sdns Require Import Common.Base Gen.C01 C01.Model C01.Proofs_sig C01.Proofs_chain C01.Proofs_f9 C01.Proofs_top C01.Proofs_deleg.
+From Sdns Require Import Common.Base Gen.C01 C01.Model C01.Proofs_sig C01.Proofs_chain C01.Proofs_f9 C01.Proofs_top C01.Proofs_deleg C01.Proofs_pad.
 Open Scope N_scope.
 
 (* VerifyDS: success means a supported DS of the parent's set is the digest of a key of the child's
@@ -183,6 +183,29 @@ Theorem straddling_nsec_inert : forall ns s r nx,
   denial_records (filter_zone (r :: ns) s) = denial_records (filter_zone ns s).
 Proof. exact straddling_nsec_inert_lemma. Qed.
 Print Assumptions straddling_nsec_inert.
+
+(* "padded with foreign records": VerifyRRSIG gives the same verdict with and without authority records owned outside
+   the signer's zone; at most the NAME of the error changes, and only when the message proper holds no RRSIG at all while
+   the padding does *)
+Theorem verify_rrsig_ignores_foreign_authority : forall nrank now signer keys ans ns pre post,
+  foreign signer (pre ++ post) ->
+  let padded := verify_rrsig nrank now signer keys ans (pre ++ ns ++ post) in
+  let plain := verify_rrsig nrank now signer keys ans ns in
+  fst padded = fst plain /\ (snd padded = None <-> snd plain = None) /\
+  ((filter is_sig (pre ++ post) = [] \/ filter is_sig (ans ++ ns) <> []) -> padded = plain).
+Proof. exact verify_rrsig_ignores_foreign_authority_lemma. Qed.
+Print Assumptions verify_rrsig_ignores_foreign_authority.
+
+(* …and answer() as a whole: same verdict, same AD, same sections, for every padding (front and back) that lies outside
+   the zone of every candidate signer.  This is the statement the seeded change C01-7 falsifies: with the bailiwick filter
+   moved behind the next-closer check a foreign span turns Fail EWildcardNoDenial into Accept with AD. *)
+Theorem answer_ignores_foreign_authority : forall E qname qtype cd resp pre post pds zone,
+  (forall s, In s (find_signers (e_nrank E) (m_ans (bailiwick zone resp)) qname true) -> foreign s (pre ++ post)) ->
+  filter is_sig (pre ++ post) = [] ->
+  dname_target (bailiwick zone resp) = None ->
+  validate_answer E qname qtype cd (pad_ns resp pre post) pds zone = validate_answer E qname qtype cd resp pds zone.
+Proof. exact answer_ignores_foreign_authority_lemma. Qed.
+Print Assumptions answer_ignores_foreign_authority.
 
 (* unsigned data is served only when the zone is not secure or an insecure delegation is proven, and that
    proof rests on a DS-denial response verifyDNSSEC accepted *)
